@@ -95,6 +95,15 @@ TEXT = [
     ("def t() { max(-1, -2) += 1 }", "t()"),
     ("def t() { var &m = max(-1, -2); m += 1; m }", "t()"),
     ("def t() { var l = [-1, 2]; var &e = l[0]; e *= 2; l }", "t()"),
+    # `:=` re-seats the cell every holder shares: on a parameter bound to a literal that cell is the literal's own
+    ("def over(x, lim) { var extra = 0; if (x > lim) { extra = x - lim; x := lim }; extra }", "over(50, 10)"),
+    ("def over(x, lim) { var extra = 0; if (x > lim) { extra = x - lim; x := lim }; extra }; def t() { over(7, 3) + 1000 }", "t()"),
+    ("def reseat(x) { var loc = 100; x := loc; x += 1; x }", "reseat(25)"),
+    ("def reseat(s) { s := \"other\"; s }", "reseat(\"lit\")"),
+    ("def reseat(v) { v := [9]; v.size() }", "reseat([1, 2, 3])"),
+    ("def t() { var &r = -4; r := -5; r }", "t()"),
+    ("def t() { var f = fun(a) { a := 2; a }; f(1) + f(1) }", "t()"),
+    ("def swap2(a, b) { var tmp = a; a := b; b := tmp; [a, b] }", "swap2(1, 2)"),
 ]
 
 
